@@ -88,13 +88,15 @@ def c02(tier):
     q = tier == "quick"
     cases = (mk("rpc", 700 if q else 30000, s, "default", n_ops=45) + mk("rpc", 200 if q else 10000, s + 1, "tiny", n_ops=45)
              # "every reachable daemon state" includes states in which deliveries to other peers fail
-             + mk("faulty", 300 if q else 8000, s + 2, "smallbuf", n_ops=70, weights=dict(route=30, reply=12, change=25, advance=6)))
+             + mk("faulty", 300 if q else 8000, s + 2, "smallbuf", n_ops=70, weights=dict(route=30, reply=12, change=25, advance=6))
+             # the requester itself reads slowly: responses to its single requests and batches pile up; a refused response ends the connection
+             + mk("slowreq", 60 if q else 2500, s + 3, "default") + mk("slowreq", 60 if q else 2500, s + 4, "smallbuf"))
     res = run_cases(cases)
     return report("C02", "exploration", res,
                   "grammar-generated JSON-RPC requests (all 12 methods + unknown, params valid / missing / mistyped / hostile, ids of every JSON type incl. "
                   "fractions, >2^31, negative, long and non-ASCII strings, single and batched) sent in daemon states produced by a random bus workload; ledger: "
                   "exactly one response per string/number id on the requester's connection with an equal id and exactly one of result/error, none otherwise, "
-                  "responses in request order, nothing on other connections; distinct = (method, id type, params type) and response-class signatures",
+                  "responses in request order, nothing on other connections; plus requesters that stop reading while their own single and batched requests are answered (below the write buffer's capacity nothing is lost; beyond it a response may be refused only if the connection ends - a connection that is still open and answers a fence owes every response); distinct = (method, id type, params type) and response-class signatures",
                   t0, tier, SIM_ASSUME + ["numeric ids with more than 15 significant decimal digits are not generated (the vendored JSON library prints 15 digits)"],
                   min_events={"responses": 5000, "batches": 500})
 
